@@ -265,6 +265,23 @@ class C17(Prop):
             tolc = 1e-9 * max(1.0, mag * mag / math.sqrt(float(mx) * float(my)))
             if corr is None or abs(corr - wantc) > tolc:
                 return Mismatch('corr differs from Pearson r of the two-pass moments', corr, wantc, 'C17:corr')
+            wsq = fr(r['model']['corrSq'])
+            if wsq is None or abs(corr * corr - float(wsq)) > 4 * tolc:
+                return Mismatch('corr squared differs from the model\'s corrSq', corr * corr, None if wsq is None else float(wsq),
+                                'C17:corrSq')
+        else:
+            # degenerate: no row, one row, or a constant column - the textbook value is 0/0: NaN (or null), not a failure
+            try:
+                corr = df.corr('a', 'b')
+            except Exception as e:  # pylint: disable=broad-except
+                return Mismatch('corr of a degenerate dataset (%d rows; sums of squared deviations %s, %s) raised instead of '
+                                'reporting NaN' % (spec['n'], float(mx), float(my)), exc(e), 'NaN', 'C17:corr:degenerate:exc',
+                                relation='spec')
+            ctx.note('corr_degenerate')
+            if r['model']['corrSq'] is not None:
+                return Mismatch('Lean: corrSq of a degenerate dataset is not NaN', r['model'], None, 'model-spec:corrSq')
+            if corr is not None and not (isinstance(corr, float) and math.isnan(corr)):
+                return Mismatch('corr of a degenerate dataset should be NaN', corr, 'NaN', 'C17:corr:degenerate', relation='spec')
         return None
 
     def teardown(self, ctx):
